@@ -456,8 +456,8 @@ impl C20 {
         let mut r = k;
         let text = if r % 34 == 33 { "W".repeat(300) } else { TEXTS[(r % 34) as usize].to_string() };
         r /= 34;
-        let digits = (r % 3) as usize;
-        r /= 3;
+        let digits = (r % 4) as usize;
+        r /= 4;
         // the button command under each of 24 button styles, the other commands under the first
         let combo = r % 35;
         let (lvl, c, nnum) = if combo < 24 { CMDS[0] } else { CMDS[(combo - 23) as usize] };
@@ -470,7 +470,9 @@ impl C20 {
         let num: String = match digits {
             0 => "0".repeat(nnum),
             1 => (0..nnum).map(|i| if i % 2 == 0 { '0' } else { 'A' }).collect(),
-            _ => (0..nnum).map(|i| ['1', 'Z', '0', '5'][i % 4]).collect(),
+            2 => (0..nnum).map(|i| ['1', 'Z', '0', '5'][i % 4]).collect(),
+            // x = 0, y = 345: the last text rows of the 640 x 350 screen (long texts run past the right edge there)
+            _ => (0..nnum).map(|i| ['0', '0', '9', 'L'][i % 4]).collect(),
         };
         // a picture in the clipboard first (buttons and icons can stamp / use it)
         bytes.extend_from_slice(b"|1C05050K0K0");
@@ -769,7 +771,7 @@ impl Prop for C20 {
         self.n_rip_viewport = 4 * 9 * RIP_CMDS.len() as u64;
         self.n_igs_blit = 7 * 16 * 4 * 3;
         self.n_rip_selector = 16 * 8 * RIP_CMDS.len() as u64;
-        self.n_rip_text = 34 * 3 * 35;
+        self.n_rip_text = 34 * 4 * 35;
         self.n_rip_uniform + self.n_rip_mixed + self.n_igs_table + self.n_rip_pairs + self.n_igs_mixed + self.n_rip_viewport + self.n_igs_blit + self.n_rip_selector + self.n_rip_text + ctx.tier.pick(30_000, 1_500_000)
     }
     fn run_case(&mut self, ctx: &mut Ctx, k: u64) {
